@@ -136,6 +136,8 @@ class Rig:
         self.default_sigint = signal.getsignal(signal.SIGINT)
 
     def close(self):
+        if getattr(self, "pty2", None) is not None:
+            self.pty2.close()
         self.fp.uninstall()
         signal.signal(signal.SIGINT, self.default_sigint)
         signal.set_wakeup_fd(-1)
@@ -453,6 +455,8 @@ def run_case(ctx, case):
         return run_sigint(ctx, case)
     if case.get("kind") == "storm":
         return run_storm(ctx, case)
+    if case.get("kind") == "overlap":
+        return run_overlap(ctx, case)
     if case.get("kind") == "cycles":
         return run_cycles(ctx, case)
     if case.get("kind") == "reuse":
@@ -814,6 +818,54 @@ def run_sigint(ctx, case):
     termios.tcsetattr(fd, termios.TCSANOW, R.cooked)
 
 
+def run_overlap(ctx, case):
+    """two context managers of the same kind on two DIFFERENT terminals, open at the same time and
+    left in the order they were entered (two threads or two sessions do that): each terminal gets
+    back its own state"""
+    from curtsies import Cbreak, Nonblocking, Termmode
+    R = rig()
+    if getattr(R, "pty2", None) is None:
+        R.pty2 = plumbing.Pty(transparent=False)
+        R.cooked2 = termios.tcgetattr(R.pty2.slave)
+    fds = [R.pty.slave, R.pty2.slave]
+    streams = [R.pty.stream, R.pty2.stream]
+    set_tty_mode(fds[0], R.cooked, case["modes"][0])
+    set_tty_mode(fds[1], R.cooked2, case["modes"][1])
+    fcntl.fcntl(fds[1], fcntl.F_SETFL, fcntl.fcntl(fds[1], fcntl.F_GETFL) | os.O_APPEND)
+    before = [(termios.tcgetattr(fd), fcntl.fcntl(fd, fcntl.F_GETFL)) for fd in fds]
+
+    def make(stream, fd):
+        if case["what"] == "cbreak":
+            return Cbreak(stream)
+        if case["what"] == "nonblocking":
+            return Nonblocking(stream)
+        attrs = termios.tcgetattr(fd)
+        attrs[3] &= ~termios.ECHO
+        return Termmode(stream, attrs)
+    problems = []
+    try:
+        cms = [make(streams[0], fds[0]), make(streams[1], fds[1])]
+        for cm in cms:
+            cm.__enter__()
+        order = [0, 1] if case["exit_order"] == "fifo" else [1, 0]
+        for i in order:
+            cms[i].__exit__(None, None, None)
+    except Exception as ex:  # noqa
+        problems.append("raised %r" % (ex,))
+    after = [(termios.tcgetattr(fd), fcntl.fcntl(fd, fcntl.F_GETFL)) for fd in fds]
+    for i in (0, 1):
+        if after[i][0] != before[i][0]:
+            problems.append("terminal %d: tty attributes not its own again" % i)
+        if after[i][1] != before[i][1]:
+            problems.append("terminal %d: file status flags %o, were %o" % (i, after[i][1], before[i][1]))
+    ctx.judge(not problems, case, ("C12", "overlap", repr(case)), "C12:overlapping-contexts-on-two-terminals",
+              "each terminal as before", problems, nontrivial=True)
+    ctx.count("overlap_histories")
+    termios.tcsetattr(fds[0], termios.TCSANOW, R.cooked)
+    termios.tcsetattr(fds[1], termios.TCSANOW, R.cooked2)
+    fcntl.fcntl(fds[0], fcntl.F_SETFL, R.flags0)
+
+
 def run_storm(ctx, case):
     """real SIGINTs (default handler, sigint_event off) sent by ANOTHER PROCESS a random number of
     microseconds after a key arrived (a thread of this process could only send while the
@@ -951,6 +1003,10 @@ def run(ctx):
             for mode in ("cooked", "raw"):
                 run_nested_inputs(ctx, {"kind": "nested-inputs", "inner_sigint_event": ise, "tty": mode})
         run_cycles(ctx, {"kind": "cycles", "n": 100 if ctx.quick else 1000})
+        for what in ("cbreak", "termmode", "nonblocking"):
+            for eo in ("fifo", "lifo"):
+                for modes in (["cooked", "raw"], ["noecho", "cooked"], ["vmin", "noisig"]):
+                    run_overlap(ctx, {"kind": "overlap", "what": what, "exit_order": eo, "modes": modes})
         import itertools as _it
         for n_uses in (2, 3):
             for uses in _it.product(("main", "thread"), repeat=n_uses):
